@@ -3,7 +3,7 @@ from __future__ import annotations
 
 from typing import List
 
-from ..kit import Ctx, caller_ok, calls, calls_target, kw, loops, rule, short
+from ..kit import Ctx, caller_ok, calls, calls_target, deferred_calls, kw, loops, rule, short
 from ..paths import Event
 from ..terms import NONE, key, strip_ver
 from .runner import ADD, CANCEL, EXEC, HO, handling_blocks
@@ -57,6 +57,19 @@ def r2(ctx: Ctx) -> None:
                 want = {short(_agent_lookup(("attr", el, "buy_agent_id"))), short(_agent_lookup(("attr", el, "sell_agent_id")))}
                 got = [short(strip_ver(e.recv)) for e in cbs if kw(e, "log", 0) == el]
                 ok = len(cbs) == 2 and sorted(got) == sorted(want) and not bp.conds and bp.exit[0] == "fall"
+                dfr = deferred_calls(bp, "executed_order")
+                if not ok and dfr:
+                    # the callbacks are wrapped in closures that run later: they see the loop's variables as they are THEN
+                    import ast as _ast
+
+                    loop_names = {n.id for n in _ast.walk(l.node) if isinstance(n, _ast.Name) and isinstance(n.ctx, _ast.Store)} if l.node is not None else set()
+                    captured = sorted({v for note, _ in dfr for v in note.data.get("free", []) if v in loop_names})
+                    if captured:
+                        ctx.violated(f, dfr[0][0].node, f"{b.phase} {b.kind}: buyer and seller of each fill are told once each", "callbacks made per fill with that fill's record",
+                                     f"the callback is deferred in a closure over the loop variable(s) {', '.join(captured)}: every deferred call sees the values of the last fill")
+                    else:
+                        ctx.unrec(f, dfr[0][0].node, f"{b.phase} {b.kind}: buyer and seller of each fill are told once each", "callbacks are deferred in closures; when they run is not modelled")
+                    continue
                 ctx.check(ok, f, l.node, f"{b.phase} {b.kind}: buyer and seller of each fill are told once each", "id2agent[log.buy_agent_id].executed_order(log), id2agent[log.sell_agent_id].executed_order(log)",
                           "; ".join(f"{short(e.recv)}.executed_order(log={short(kw(e, 'log', 0))})" for e in cbs) or "none")
         # notification comes after the whole round has been applied to holdings
